@@ -88,4 +88,9 @@ def check(prot_peps, peptide_map, shared_peptides, protein_map, prefix):
         if not p.startswith(prefix):
             if protein_map.get(p) != prefix + p:
                 bad.append(("target_not_paired", {"target": p, "mapped": protein_map.get(p)}))
+    # the map pairs *target* proteins with their decoys: a decoy entry listed as a target of its own is no pair
+    for p in protein_map:
+        if str(p).startswith(prefix) and p in prot_peps:
+            bad.append(("decoy_listed_as_target", {"entry": p, "mapped": protein_map.get(p)}))
+            break
     return bad
